@@ -435,8 +435,9 @@ fn label_problems(w: &World) -> Vec<(String, String)> {
                 format!("{}/primary-label-outside-the-faulty-declaration", dg.code),
                 format!("label {}..{} ({:?}) of {} lies in declaration {} which is not the faulty one", s, e, crate::util::short(&text[s..e], 20), dg.code, at),
             ));
-        } else if (dg.code == "P0005" || dg.code == "P0003") && {
-            // "first instance": the primary label of a duplicate is the first place the name is written
+        } else if (dg.code == "P0005" || dg.code == "P0003") && l.message.to_lowercase().contains("first") && {
+            // a label that calls itself the "first instance" is on the first place the name is written
+            // (a label that says nothing of the kind may sit on any of the instances)
             let word = text[s..e].to_lowercase();
             let decl_start = ranges.iter().find(|(a, b, _, _)| *a <= s && e <= *b).map(|r| r.0).unwrap_or(0);
             // the duplicated name written earlier in the same list (between the opening of the list and the label)
